@@ -78,6 +78,8 @@ class AsyncSimpleClient:
         def __disconnect_final():  # pragma: no cover
             self.connected = False
             self.connected_event.set()
+            # wake up a receive() call that is waiting for input
+            self.input_event.set()
 
         @self.client.on('*', namespace=self.namespace)
         def on_event(event, *args):  # pragma: no cover
